@@ -19,7 +19,12 @@
 
 use futures::future::FusedFuture;
 use futures::stream::{FusedStream, FuturesUnordered, Stream};
+#[cfg(not(feature = "verif-hooks"))]
 use futures::{pin_mut, select};
+#[cfg(feature = "verif-hooks")]
+use futures::pin_mut;
+#[cfg(feature = "verif-hooks")]
+use crate::verif_select as select;
 use nix;
 use nix::errno::Errno;
 use nix::sys::signal::{self, SigHandler, Signal};
@@ -383,6 +388,8 @@ impl BuildJob<'_> {
                 argv.iter()
                     .map(|s| CString::new(Vec::from_iter(OsBytes::new(s))).unwrap()),
             );
+            #[cfg(feature = "verif-hooks")]
+            crate::verif::note("exec", "do");
             let _ = unistd::execvp(argv[0].as_c_str(), argv.as_slice());
             // Returns only if execvp failed.
             EXIT_FAILURE
@@ -463,6 +470,8 @@ impl BuildJob<'_> {
             if unsafe { signal::signal(Signal::SIGPIPE, SigHandler::SigDfl) }.is_err() {
                 return EXIT_FAILURE;
             }
+            #[cfg(feature = "verif-hooks")]
+            crate::verif::note("exec", "unlocked");
             let _ = unistd::execvp(&argv[0], argv.as_slice());
             // Returns only if execvp failed.
             eprintln!("Failed to exec: {:?}", argv);
@@ -496,6 +505,8 @@ impl BuildJob<'_> {
         use std::io::{Seek, SeekFrom};
         use std::os::unix::fs::MetadataExt;
 
+        #[cfg(feature = "verif-hooks")]
+        crate::verif::note("record-begin", &format!("fid={} rv={}", sf.id(), rv));
         let after_t = try_stat(t).expect("cannot get target metadata");
         let st1 = out_file.metadata().expect("cannot get out_file metadata");
         let mut st2 = try_stat(tmp_name).expect("unexpected error when statting $3");
